@@ -21,6 +21,7 @@ META = {
     "not_decided": "transitivity/totality for all values (NaN), that the result is an ordered permutation for every input",
     "assumptions": [],
 }
+META["explanation"] += " " + 'PR-sort additionally: on every path through the loop body the ranges recursed into or continued with include [start, pivot) and [pivot + 1, end) (linear forms of the range arguments), and every element access has start <= index < end (E-ZONE, under start <= end, which every recursive call re-establishes).'
 
 SU = "Qentem::StringUtils::"
 
@@ -99,6 +100,19 @@ def run(ctx):
                 c = [x for x in cs if f.call_simple_name(x) in ("IsLess", "IsGreater")]
                 ok = False
                 why = "no IsLess/IsGreater call"
+                if not c:
+                    # the operator written as the negation of its complement on the same operands: a <= b == !(a > b)
+                    comp_op = {"<=": ">", ">=": "<", "<": ">=", ">": "<="}[op]
+                    for rt in astq.returns(f):
+                        vn = f.nodes[f.strip(f.nodes[rt]["val"])]
+                        if vn["k"] == "UnaryOperator" and vn["op"] == "!":
+                            inner = f.nodes[f.strip(vn["ch"][0])]
+                            if inner["k"] in ("CXXOperatorCallExpr", "BinaryOperator") and inner.get("op") == comp_op:
+                                ia = f.call_args(f.strip(vn["ch"][0])) if inner["k"] == "CXXOperatorCallExpr" else inner["ch"]
+                                lhs_t, rhs_t = f.text(ia[0]).replace(" ", ""), f.text(ia[1])
+                                if lhs_t in ("*this", "(*this)") and rhs_t == f.params[0]["n"]:
+                                    ok = True
+                                    why = "defined as !(*this %s %s): the complement operator on the same operands (that operator is checked on its own)" % (comp_op, rhs_t)
                 if len(c) == 1:
                     args = f.call_args(c[0])
                     flag = f.const_value(args[4]) if len(args) == 5 else None
